@@ -144,6 +144,30 @@ def limit_probes(rng):
                     fold = b"X: " + b"v" * a + b"".join(b"\r\n " + b"w" * c for c in conts) + b"\r\n " + b"z" * last
                     out.append((H.Cfg(max_line=max(ml, 20), max_field=mf, response=True, lax=True),
                                 b"HTTP/1.1 200 OK\r\n" + fold + b"\r\nContent-Length: 0\r\n\r\n", "folded", delta))
+        # lax (client-side, LF-terminated) parser: k CRs in front of the LF. One CR belongs to the line ending;
+        # every further one counts as line content (for chunk-size lines all of them do)
+        for delta in (-1, 0, 1):
+            for k in (1, 2, 3):
+                crs = b"\r" * k
+                laxcfg = dict(response=True, lax=True, read_until_eof=False)
+                n = ml + delta
+                pad = n - len(b"HTTP/1.1 200 ")
+                if pad >= 0:
+                    out.append((H.Cfg(max_line=ml, max_field=max(mf, 40), **laxcfg),
+                                b"HTTP/1.1 200 " + b"R" * pad + crs + b"\nContent-Length: 0\r\n\r\n", f"statusline-cr{k}", delta + k - 1))
+                n = mf + delta
+                if n >= 4 and mf >= 24:
+                    out.append((H.Cfg(max_line=max(ml, 20), max_field=mf, **laxcfg),
+                                b"HTTP/1.1 200 OK\r\nX: " + b"v" * (n - 3) + crs + b"\nContent-Length: 0\r\n\r\n", f"field-cr{k}", delta + k - 1))
+                    if mf >= 30:
+                        out.append((H.Cfg(max_line=max(ml, 20), max_field=mf, **laxcfg),
+                                    b"HTTP/1.1 200 OK\r\nTransfer-Encoding: chunked\r\n\r\n5\r\nhello\r\n0\r\nX: " + b"t" * (n - 3) + crs + b"\n\r\n",
+                                    f"trailer-cr{k}", delta + k - 1))
+                n = ml + delta
+                if n >= 3 and ml >= 20:
+                    out.append((H.Cfg(max_line=ml, max_field=max(mf, 40), **laxcfg),
+                                b"HTTP/1.1 200 OK\r\nTransfer-Encoding: chunked\r\n\r\n5;" + b"e" * (n - 2) + crs + b"\nhello\r\n0\r\n\r\n",
+                                f"chunkline-cr{k}", delta + k))
         # header count
         mh = rng.randint(2, 12)
         for d in (-1, 0, 1):
